@@ -17,6 +17,7 @@ import (
 	"sync"
 	"time"
 
+	"github.com/grailbio/base/errors"
 	"verifharness/prog"
 	"verifharness/vf"
 )
@@ -29,6 +30,7 @@ type Desc struct {
 	Consumers []prog.Prog `json:"consumers"` // Funcs over the Result (node 0 = arg), run concurrently
 	Indep     []prog.Prog `json:"indep"`     // independent programs, run concurrently
 	Scans     int         `json:"scans"`     // concurrent scans of the Result
+	Discard   string      `json:"discard"`   // "": none; "before": the shared Result is discarded right before the concurrent runs start (they all await its recomputation); "during": it is also discarded while they run
 }
 
 func combined(base, cons prog.Prog) prog.Prog {
@@ -85,6 +87,33 @@ func genDesc(r *vf.Rand, i int) Desc {
 			prog.Prog{Nodes: []prog.Node{arg, {Op: "reshard", In: []int{0}, N: root.NShard + 1}}})
 	}
 	n := r.Range(1, 3)
+	switch i % 4 {
+	case 2:
+		d.Discard = "before"
+		n = r.Range(2, 4)
+		d.Scans = 0 // a scan of a discarded Result may legitimately fail
+	case 3:
+		d.Discard = "during"
+		n = r.Range(5, 7) // many runs awaiting the same recomputed tasks
+		d.Scans = 0
+	}
+	if i%8 == 5 {
+		// one transient loss of a shared task while many runs await it: the base is a
+		// ReaderFunc whose first read fails with a temporary error, armed only in the
+		// concurrent phase; each run alone survives a single loss
+		d.Base = prog.Prog{Nodes: []prog.Node{{Op: "readerfunc", N: r.Range(1, 2), Types: []string{"i", "i"}, A: int64(r.Range(5, 60)), B: 1, N2: 2,
+			Fail: &prog.Fail{Mode: "temp", Shard: -1, Row: 1, Once: true}}}}
+		d.Discard = "before"
+		d.Scans = 0
+		d.Indep = nil
+		n = r.Range(6, 8)
+		arg2 := prog.Node{Op: "arg", N: d.Base.Nodes[0].N, Types: []string{"i", "i"}, N2: 1}
+		for j := 0; j < n; j++ {
+			d.Consumers = append(d.Consumers, prog.Prog{Nodes: []prog.Node{arg2, {Op: "filter", In: []int{0}, Exprs: []prog.Expr{{K: "true"}}}}})
+		}
+		d.Cfg = prog.Cfg{Kind: "local", Parallelism: 8}
+		return d
+	}
 	for j := 0; j < n; j++ {
 		d.Consumers = append(d.Consumers, cands[r.Intn(len(cands))])
 	}
@@ -179,7 +208,10 @@ func main() {
 			sessions[key] = s
 		}
 		baseSch, _ := d.Base.Schemas()
+		prog.MakeTemp = func(msg string) error { return errors.E(errors.Temporary, msg) }
+		prog.FailArmed.Store(false) // the base run itself is failure-free
 		o0, res := prog.RunOnce(s, d.Base, "", 60*time.Second)
+		prog.FailArmed.Store(true)
 		runs := []string{vf.Tuple(d.Base.Term(), obsTerm(o0))}
 		summary := []string{"base:" + o0.Err}
 		wedged := false
@@ -198,7 +230,7 @@ func main() {
 				go func(c prog.Prog) {
 					defer wg.Done()
 					<-start
-					sl.o, _ = prog.RunArgOnce(s, c, res, 90*time.Second)
+					sl.o, _ = prog.RunArgOnce(s, c, res, 40*time.Second)
 				}(c)
 			}
 			for _, p := range d.Indep {
@@ -208,7 +240,7 @@ func main() {
 				go func(p prog.Prog) {
 					defer wg.Done()
 					<-start
-					sl.o, _ = prog.RunOnce(s, p, "", 90*time.Second)
+					sl.o, _ = prog.RunOnce(s, p, "", 40*time.Second)
 				}(p)
 			}
 			for j := 0; j < d.Scans; j++ {
@@ -235,12 +267,22 @@ func main() {
 					}
 				}()
 			}
+			if d.Discard != "" {
+				res.Discard(ctx)
+			}
 			close(start)
+			if d.Discard == "during" {
+				// lose the shared tasks again while the runs are under way
+				for j := 0; j < 3; j++ {
+					runtime.Gosched()
+					res.Discard(ctx)
+				}
+			}
 			done := make(chan struct{})
 			go func() { wg.Wait(); close(done) }()
 			select {
 			case <-done:
-			case <-time.After(120 * time.Second):
+			case <-time.After(60 * time.Second):
 				wedged = true
 			}
 			for _, sl := range slots {
@@ -262,6 +304,13 @@ func main() {
 		}
 		out.Add(vf.Case{Term: term, Desc: d, Sig: "concurrent-runs/" + d.Cfg.Kind, Nontriv: nt,
 			Kind: fmt.Sprintf("%s/procs%d/yield%v", d.Cfg.Kind, d.Procs, d.Yield), Observed: summary})
+		nwedged := 0
+		if wedged {
+			nwedged++
+		}
+		if nwedged > 0 && opts.Replay == "" {
+			break // a run that blocks is recorded; do not pay the watchdog again and again
+		}
 	}
 	prog.Yield = false
 	// data races reported by the race runtime (GORACE=log_path=<out>/race)
